@@ -2,6 +2,7 @@ package main
 
 import (
 	"fmt"
+	"os"
 	"sort"
 
 	"github.com/piotrnar/gocoin/lib/btc"
@@ -14,6 +15,7 @@ type corpusEntry struct {
 	thoroughOnly bool
 	run          func(s *scen)
 	opts         chainkit.Opts
+	genesisBits  uint32 // != 0: written into the genesis node's header (see newScen) — branches with different bits
 }
 
 var corpusList []corpusEntry
@@ -33,14 +35,18 @@ func corpusByName(n string) *corpusEntry {
 func runScenario(name string, alloc bool, sub uint64, size int) {
 	opts := chainkit.Opts{Testnet: true, GenesisTime: fixedGenesisTime} // testnet rule set = same consensus code, fewer console prints
 	var body func(s *scen)
+	var genesisBits uint32
 	if name == "random" {
 		body = func(s *scen) { genRandom(s, size) }
+	} else if name == "random-mixed-bits" {
+		genesisBits = heavyBits
+		body = func(s *scen) { s.mixed = true; genRandom(s, size) }
 	} else if c := corpusByName(name); c != nil {
-		body, opts = c.run, c.opts
+		body, opts, genesisBits = c.run, c.opts, c.genesisBits
 	} else {
 		return
 	}
-	s := newScen(name, alloc, sub, size, opts)
+	s := newScen(name, alloc, sub, size, opts, genesisBits)
 	defer s.close()
 	func() {
 		defer func() {
@@ -52,7 +58,16 @@ func runScenario(name string, alloc bool, sub uint64, size int) {
 		s.undoFilesCheck()
 	}()
 	r.Hit("scenario/" + name)
-	if !s.dead && name == "random" {
+	if tf := os.Getenv("C06_TRACE"); tf != "" { // debugging aid: append every scenario's step trace to a file
+		if f, err := os.OpenFile(tf, os.O_APPEND|os.O_CREATE|os.O_WRONLY, 0644); err == nil {
+			fmt.Fprintf(f, "== %s alloc=%v subseed=%d size=%d dead=%v\n", name, alloc, sub, size, s.dead)
+			for _, l := range s.ops {
+				fmt.Fprintln(f, l)
+			}
+			f.Close()
+		}
+	}
+	if !s.dead && (name == "random" || name == "random-mixed-bits") {
 		r.Sample(map[string]interface{}{"scenario": name, "alloc": alloc, "subseed": sub, "blocks": len(s.blocks), "steps": s.step, "last_ops": tail(s.ops, 6)})
 	}
 }
@@ -66,7 +81,9 @@ func tail(a []string, n int) []string {
 
 // ---------------------------------------------------------------------------------------- base chain
 
-// base grows a straight chain whose coinbases have several outputs (some always-false, some P2PKH).
+// base grows a straight chain whose coinbases have several outputs (some always-false, some P2PKH, some locked by a
+// height-gated script rule). The first coinbase always carries one output of every unspendable class and the second
+// one a P2PKH output, so that every invalid block kind has something to spend as soon as the base is 101 blocks long.
 func (s *scen) base(n int) *rBlock {
 	s.quietBase = true
 	tip := s.blocks[0]
@@ -78,6 +95,9 @@ func (s *scen) base(n int) *rBlock {
 		if i >= 12 {
 			parts = 1
 		}
+		if i == 0 {
+			parts = 5
+		}
 		left := rew
 		for p := 0; p < parts; p++ {
 			v := left / uint64(parts-p)
@@ -87,12 +107,16 @@ func (s *scen) base(n int) *rBlock {
 			left -= v
 			scr := chainkit.AnyoneScript
 			switch {
+			case i == 0 && p > 0:
+				scr = [][]byte{trapScript, cltvScript, csvScript, s.witScript()}[p-1]
 			case p > 0 && s.g.Chance(1, 8):
 				scr = trapScript
-			case p > 0 && s.g.Chance(1, 8):
+			case (i == 1 && p == 1) || (p > 0 && s.g.Chance(1, 8)):
 				key := s.k.NewKey()
 				s.keys[string(key.P2PKH())] = key
 				scr = key.P2PKH()
+			case p > 0 && s.g.Chance(1, 6):
+				scr = s.gatedScript()
 			}
 			outs = append(outs, chainkit.OutSpec{Value: v, Script: scr})
 		}
@@ -129,7 +153,7 @@ func (tg *txGen) spendable(allowLocal bool) []outpoint {
 			if tg.used[op] || (c.Coinbase && tg.height-c.Height < maturity) {
 				continue
 			}
-			if len(c.Script) == 1 && c.Script[0] == 0x00 {
+			if scriptClass(c.Script) != "" { // always-false or locked: never spent by a valid transaction
 				continue
 			}
 			ops = append(ops, op)
@@ -195,6 +219,8 @@ func (tg *txGen) spend(ops []outpoint, nout int, extra uint64, wrongKey bool) *b
 			key := tg.s.k.NewKey()
 			tg.s.keys[string(key.P2PKH())] = key
 			scr = key.P2PKH()
+		case 2:
+			scr = tg.s.gatedScript()
 		}
 		outs = append(outs, chainkit.OutSpec{Value: v, Script: scr})
 	}
@@ -225,10 +251,19 @@ func (tg *txGen) randomValid(max int) {
 	}
 }
 
-var invalidKinds = []string{"double-spend", "missing", "immature", "script", "overspend", "cb-overpay", "vout-range", "own-coinbase", "wrong-key"}
+// "cltv", "csv", "wit-empty": the spent output's script fails only under a flag that the node derives from the block's
+// HEIGHT (BIP65, BIP112, BIP141) — the same scripts pass when a block is verified with the flags of height 0.
+var invalidKinds = []string{"double-spend", "missing", "immature", "script", "overspend", "cb-overpay", "vout-range", "own-coinbase", "wrong-key", "cltv", "csv", "wit-empty"}
 
 // makeBlock builds a block on parent: random valid transactions and, for kind != "", one rule violation.
+// In the mixed-bits stream every block is light (minimum difficulty) or heavy at random.
 func (s *scen) makeBlock(parent *rBlock, kind string, allEver map[outpoint]rCoin) *rBlock {
+	return s.makeBlockL(parent, kind, allEver, s.mixed && s.g.Chance(1, 2))
+}
+
+// makeBlockL: light = 1201 s after the parent (minimum-difficulty bits under the testnet rule); only meaningful in
+// scenarios whose genesis bits are heavier than the minimum.
+func (s *scen) makeBlockL(parent *rBlock, kind string, allEver map[outpoint]rCoin, light bool) *rBlock {
 	eval(parent)
 	ctx := parent
 	for !ctx.valid { // descendants of an invalid block: build from the last valid ancestor's view
@@ -237,7 +272,7 @@ func (s *scen) makeBlock(parent *rBlock, kind string, allEver map[outpoint]rCoin
 	h := parent.Height + 1
 	tg := &txGen{s: s, view: ctx.view, height: h, used: map[outpoint]bool{}, local: map[outpoint]rCoin{}}
 	tg.randomValid(3)
-	bo := blockOpts{label: kind}
+	bo := blockOpts{label: kind, light: light}
 	g := s.g
 	switch kind {
 	case "double-spend":
@@ -259,7 +294,7 @@ func (s *scen) makeBlock(parent *rBlock, kind string, allEver map[outpoint]rCoin
 		if len(cands) > 0 {
 			op := cands[g.Intn(len(cands))]
 			c := allEver[op]
-			if !(len(c.Script) == 1 && c.Script[0] == 0) {
+			if scriptClass(c.Script) == "" {
 				tg.view = map[outpoint]rCoin{op: c}
 				for k, v := range ctx.view {
 					tg.view[k] = v
@@ -289,6 +324,18 @@ func (s *scen) makeBlock(parent *rBlock, kind string, allEver map[outpoint]rCoin
 		var cands []outpoint
 		for op, c := range ctx.view {
 			if len(c.Script) == 1 && c.Script[0] == 0 && !(c.Coinbase && h-c.Height < maturity) {
+				cands = append(cands, op)
+			}
+		}
+		sortOps(cands)
+		if len(cands) > 0 {
+			tx := tg.spend([]outpoint{cands[g.Intn(len(cands))]}, 1, 0, false)
+			s.badTx[tx.Hash.Hash] = true
+		}
+	case "cltv", "csv", "wit-empty": // spend an output locked by a height-gated rule (empty scriptSig, no witness)
+		var cands []outpoint
+		for op, c := range ctx.view {
+			if scriptClass(c.Script) == kind && !(c.Coinbase && h-c.Height < maturity) {
 				cands = append(cands, op)
 			}
 		}
@@ -367,6 +414,13 @@ func (s *scen) makeBlock(parent *rBlock, kind string, allEver map[outpoint]rCoin
 	}
 	eval(b)
 	r.Hit("block-kind/" + kind + fmt.Sprintf("/valid=%v", b.valid))
+	if s.blocks[0].Bits != chainkit.EasyBits {
+		if b.Bits == chainkit.EasyBits {
+			r.Hit("bits/light-block")
+		} else {
+			r.Hit("bits/heavy-block")
+		}
+	}
 	return b
 }
 
